@@ -1,4 +1,4 @@
-import Tickit.Model.LifeOps
+import Tickit.Model.LifeTop
 import Tickit.Gen.Life
 import Tickit.Driver.Common
 /-
@@ -20,16 +20,19 @@ import Tickit.Driver.Common
 namespace Tickit.Driver.LifeEngine
 open Tickit Tickit.Driver Tickit.Life
 
-def cfg : Cfg :=
+def cfg0 : Cfg :=
   ⟨Gen.Life.closePurges, Gen.Life.destroyClosesChildren, Gen.Life.spanExactFit, Gen.Life.mouseKeepsRoot, Gen.Life.lastPressInit,
    Gen.Life.dragForgottenOnClose, Gen.Life.snapshotRouting, Gen.Life.penCopyKeepsSrc⟩
 
+def cfg : TCfg := { base := cfg0, rootForgetsTickit := Gen.Life.rootForgetsTickit }
+
 structure DSt where
-  st : St := {}
+  top : Top := {}
   crashed : Option String := none      -- the model's prediction: the process is dead
   implDead : Bool := false             -- the implementation has printed CRASH in this history
   mock : Bool := false
-deriving Inhabited
+
+instance : Inhabited DSt := ⟨{}⟩
 
 def nat? (s : String) : Option Nat := s.toNat?
 
@@ -101,6 +104,9 @@ def parseOp (ts : List String) : Option Op :=
   | ["bref", k] => do some (.bref (← nat? k))
   | ["bunref", k] => do some (.bunref (← nat? k))
   | ["btext", k, l, c, h] => do some (.btext (← nat? k) (← int? l) (← int? c) (← hexBytes? h))
+  -- the same text through tickit_renderbuffer_textf_at("%s") and through goto + tickit_renderbuffer_textn
+  | ["btextf", k, l, c, h] => do some (.btext (← nat? k) (← int? l) (← int? c) (← hexBytes? h))
+  | ["btextc", k, l, c, h] => do some (.btext (← nat? k) (← int? l) (← int? c) (← hexBytes? h))
   | ["berase", k, l, c, n] => do some (.berase (← nat? k) (← int? l) (← int? c) (← int? n))
   | ["bskip", k, l, c, n] => do some (.bskip (← nat? k) (← int? l) (← int? c) (← int? n))
   | ["bchar", k, l, c, cp] => do some (.bchar (← nat? k) (← int? l) (← int? c) (← int? cp))
@@ -118,6 +124,49 @@ def parseOp (ts : List String) : Option Op :=
   | ["end"] => some .«end»
   | _ => none
 
+def parseTAct (s : String) : Option TAct :=
+  if s = "t" then some .tunref else if s = "T" then some .tref
+  else match parseAct s with
+    | some .unbindSelf => none
+    | some a => some (.win a)
+    | none => none
+
+def parsePos (s : String) : Option (Int × Int) :=
+  match s.splitOn "," with
+  | [l, c] => do some (← int? l, ← int? c)
+  | _ => none
+
+def parseTok (s : String) : Option Tok :=
+  match s.toList with
+  | ['a'] => some .chr | ['A'] => some .alt | ['U'] => some .up | ['E'] => some .esc
+  | 'P' :: r => (parsePos (String.ofList r)).map (fun p => .press p.1 p.2)
+  | 'D' :: r => (parsePos (String.ofList r)).map (fun p => .drag p.1 p.2)
+  | 'R' :: r => (parsePos (String.ofList r)).map (fun p => .release p.1 p.2)
+  | _ => none
+
+def parseXOp (ts : List String) : Option XOp :=
+  match ts with
+  | ["mprint", l, c, h] => do some (.mprint (← int? l) (← int? c) (← hexBytes? h))
+  | ["newin", l, c] => do some (.newin (← int? l) (← int? c))
+  | "tbind" :: ev :: r :: acts => do
+    let ev ← if ev = "key" then some Ev.key else if ev = "mouse" then some Ev.mouse else none
+    some (.tbind ev ((← int? r) ≠ 0) (← acts.mapM parseTAct))
+  | ["tunbind", id] => do some (.tunbind (← int? id))
+  | "tpush" :: toks => do some (.tpush (← toks.mapM parseTok))
+  | "tread" :: toks => do some (.tread (← toks.mapM parseTok))
+  | "twait" :: toks => do some (.twait (← toks.mapM parseTok) false)
+  | "twaitv" :: toks => do some (.twait (← toks.mapM parseTok) true)
+  | ["tcheck"] => some .tcheck
+  | ["tick", ms] => do some (.tick (← int? ms))
+  | ["newtop", l, c] => do some (.newtop (← int? l) (← int? c))
+  | ["iref"] => some .iref
+  | ["iunref"] => some .iunref
+  | "ilater" :: acts => do some (.ilater (← acts.mapM parseTAct))
+  | "itimer" :: ms :: acts => do some (.itimer (← int? ms) (← acts.mapM parseTAct))
+  | ["icancel", k] => do some (.icancel (← nat? k))
+  | "itick" :: toks => do some (.itick (← toks.mapM parseTok))
+  | _ => (parseOp ts).map .base
+
 /-- The liveness columns of an implementation observation: (windows alive?, pens, strings, buffers, term). -/
 structure ImplDump where
   wins : List Bool
@@ -125,6 +174,7 @@ structure ImplDump where
   strs : List Bool
   rbs : List Bool
   term : Bool
+  inst : Bool := false
 
 def parseBits (s : String) : List Bool := if s = "-" then [] else s.toList.map (· = '1')
 
@@ -134,11 +184,16 @@ def parseDump (impl : String) : Option ImplDump :=
     let wtoks := (w.splitOn " ").filter (fun x => x ≠ "" ∧ x ≠ "W")
     let wins := wtoks.map (fun x => !(x.endsWith ":x"))
     let field (x : String) : String := ((x.splitOn " ").filter (· ≠ "")).getD 1 "-"
-    some ⟨wins, parseBits (field p), parseBits (field s), parseBits (field b), (field t).startsWith "1"⟩
+    some ⟨wins, parseBits (field p), parseBits (field s), parseBits (field b), (field t).startsWith "1", false⟩
+  | [_, w, p, s, b, t, i] =>
+    let wtoks := (w.splitOn " ").filter (fun x => x ≠ "" ∧ x ≠ "W")
+    let wins := wtoks.map (fun x => !(x.endsWith ":x"))
+    let field (x : String) : String := ((x.splitOn " ").filter (· ≠ "")).getD 1 "-"
+    some ⟨wins, parseBits (field p), parseBits (field s), parseBits (field b), (field t).startsWith "1", (field i).startsWith "1"⟩
   | _ => none
 
 /-- Specification on one implementation observation, given the application's bookkeeping after the step. -/
-def specCheck (d : DSt) (stAfter : St) (op : Op) (impl : String) : String :=
+def specCheck (d : DSt) (stAfter : St) (instRefs : Nat) (op : Op) (impl : String) : String :=
   if impl.startsWith "CRASH" then
     if d.implDead then ""
     else s!"the library died ({impl}) in a history of documented calls"
@@ -160,7 +215,7 @@ def specCheck (d : DSt) (stAfter : St) (op : Op) (impl : String) : String :=
       else match op with
         | .«end» =>
           if (impl.splitOn "leak=1").length > 1 then "allocations remain after the last reference was dropped (LeakSanitizer)"
-          else if dump.wins.any id || dump.pens.any id || dump.strs.any id || dump.rbs.any id || dump.term then
+          else if dump.wins.any id || dump.pens.any id || dump.strs.any id || dump.rbs.any id || dump.term || dump.inst then
             "an object is still alive after the application dropped every reference"
           else ""
         | _ =>
@@ -173,7 +228,8 @@ def specCheck (d : DSt) (stAfter : St) (op : Op) (impl : String) : String :=
           match held stAfter.rbs.toList (·.appRefs) dump.rbs with
           | some k => s!"buffer {k} was freed while the application holds a reference"
           | none =>
-            if stAfter.term.appRefs > 0 && !dump.term then "the terminal was freed while the application holds a reference"
+            if instRefs > 0 && !dump.inst then "the toplevel instance was freed while the application holds a reference"
+            else if stAfter.term.appRefs > 0 && !dump.term then "the terminal was freed while the application holds a reference"
             else if dump.wins.head?.getD false && !dump.term then "the terminal was freed while the root window is alive"
             else ""
 
@@ -181,37 +237,51 @@ def crashText : UB → String
   | .mem => "CRASH exit=1"
   | .abort => "CRASH signal=6"
 
+def instRefs (top : Top) : Nat :=
+  match top.inst with
+  | some i => if i.freed then 0 else i.appRefs
+  | none => 0
+
+def dumpTop (top : Top) : String :=
+  dump top.st ++ (match top.inst with
+    | some i => s!" | I {if i.freed then 0 else 1}"
+    | none => "")
+
 def step (d : DSt) (ts : List String) (impl : String) : DSt × String × String :=
-  match parseOp ts with
+  match parseXOp ts with
   | none => (d, "bad-op", "")
-  | some op =>
-    let d : DSt := match op with
-      | .newTerm _ _ m => ({ st := {}, crashed := none, implDead := false, mock := m } : DSt)
-      | _ => d
+  | some xop =>
+    let op := xop.specOp
+    let d : DSt := if xop.isNew then ({ top := {}, crashed := none, implDead := false, mock := false } : DSt) else d
     let implDeadNow := impl.startsWith "CRASH"
     match d.crashed with
     | some c =>
-      let sv := specCheck d d.st op impl
+      let sv := specCheck d d.top.st (instRefs d.top) op impl
       ({ d with implDead := d.implDead || implDeadNow }, c, sv)
     | none =>
-      let st0 := d.st
-      match Life.step cfg st0 op with
-      | .ok (st, res) =>
+      let top0 := d.top
+      match Life.xstep cfg top0 xop with
+      | .ok (top, res) =>
+        let st := top.st
         let logs := String.join (st.log.map (· ++ " "))
         let st := { st with log := [] }
+        let top := { top with st := st }
+        let instLeft := match top.inst with
+          | some i => !i.freed
+          | none => false
         let tail := match op with
-          | .«end» => s!" leak={if anythingLeft st then 1 else 0}"
+          | .«end» => s!" leak={if anythingLeft st || instLeft then 1 else 0}"
           | _ => ""
-        let m := logs ++ res ++ dump st ++ tail
-        let sv := specCheck d st op impl
-        ({ d with st := st, implDead := d.implDead || implDeadNow }, m, sv)
+        let m := logs ++ res ++ dumpTop top ++ tail
+        let sv := specCheck d st (instRefs top) op impl
+        ({ d with top := top, implDead := d.implDead || implDeadNow }, m, sv)
       | .ub k what =>
         let c := crashText k
-        let sv := specCheck d st0 op impl
+        let sv := specCheck d top0.st (instRefs top0) op impl
         let _ := what
-        ({ d with st := st0, crashed := some c, implDead := d.implDead || implDeadNow }, c, sv)
+        ({ d with top := top0, crashed := some c, implDead := d.implDead || implDeadNow }, c, sv)
       | .fuel =>
-        ({ d with crashed := some "MODEL-OUT-OF-FUEL", implDead := d.implDead || implDeadNow }, "MODEL-OUT-OF-FUEL", specCheck d st0 op impl)
+        ({ d with crashed := some "MODEL-OUT-OF-FUEL", implDead := d.implDead || implDeadNow }, "MODEL-OUT-OF-FUEL", specCheck d top0.st (instRefs top0) op impl)
 
 def engine : Engine := { σ := DSt, init := {}, step := step }
 
